@@ -369,4 +369,84 @@ theorem translated_outputasync_shield_cancel_is_model {ε ν : Type} (script : L
   simp only [Option.map] at this
   rw [← this, shield_cancel_unfold]
 
+/-! ### `_ctrl_cancel`: one iteration of the control loop
+
+The model's controller step `settle` is event-granular: it looks at the queue and at the current run.  The
+code is await-granular: one iteration of `while True` takes an item, cancels and AWAITS the running task, then
+drains the queue and starts the last item.  `W` below is whatever happens while the controller awaits -- it is
+universally quantified; the only thing assumed about it is that the awaited task is over afterwards. -/
+
+/-- nothing is running (no task yet, or the task is done): ONE ITERATION of `_ctrl_cancel` IS the model's
+    `settle` -- the item taken from the queue and everything queued behind it are drained, each discarded
+    item is reported through on_cancel with ITS OWN data, in order, the last one is started; a sentinel in
+    the queue ends the drain with `stop = True` and the item before it still runs -/
+theorem translated_outputasync_ctrl_cancel_idle_is_settle (c : Cfg) (W : State → State)
+    (hm : c.mode = Mode.cancel) (s : State) (j : Job) (q : List Job) (task : Option Job) (data : Option Job)
+    (fuel : Nat) (hr : s.runs = []) (hq : s.queue = j :: q) (hf : q.length < fuel) :
+    ctrl_cancel_iter1 (ctrlP c W) [()] fuel () data false task s
+      = (settle c s, .next (LoopCtl.next, (some (lastJob j q), s.stopped, some (lastJob j q)))) := by
+  have htail := cancel_tail c W hm { s with queue := q } j fuel hr hf
+  have hre : requeue j { s with queue := q } = s := by cases s; simp_all [requeue]
+  rw [hre] at htail
+  unfold ctrl_cancel_iter1
+  simp only [M.bind, Bool.not_false, if_true, ctrlP_get_cons c W s j q hq, Option.isNone_some, Bool.false_eq_true,
+    if_false, M.pure]
+  cases task with
+  | none => simpa [M.bind, M.pure] using htail
+  | some k =>
+    have hd : (ctrlP c W).taskDone k { s with queue := q } = true := by simp [ctrlP, hr]
+    simpa [M.bind, M.pure, M.get, hd] using htail
+
+/-- a task is active: ONE ITERATION of `_ctrl_cancel` is the model's `settle` (the running coroutine is
+    cancelled -- only while it is in its coroutine phase, never by the sentinel --, the item taken stays
+    "queued first"), then whatever happens while the controller awaits the task (`W`), then the model's
+    `settle` again: drain with on_cancel for every discarded item, start the last -/
+theorem translated_outputasync_ctrl_cancel_busy_is_settle_wait_settle (c : Cfg) (W : State → State)
+    (hm : c.mode = Mode.cancel) (hW : ∀ x, (W x).runs = []) (s : State) (r : Run) (rest : List Run) (j : Job)
+    (q : List Job) (data : Option Job) (fuel : Nat) (hr : s.runs = r :: rest) (hq : s.queue = j :: q)
+    (hf : (W { settle c s with queue := q }).queue.length < fuel) :
+    let s2 := W { settle c s with queue := q }
+    ctrl_cancel_iter1 (ctrlP c W) [()] fuel () data false (some r.job) s
+      = (settle c (requeue j s2),
+         .next (LoopCtl.next, (some (lastJob j s2.queue), s2.stopped, some (lastJob j s2.queue)))) := by
+  intro s2
+  have hcj := cancelJob_is_settle c hm s r rest j q hr hq
+  have htail := cancel_tail c W hm s2 j fuel (hW _) hf
+  have hd : (ctrlP c W).taskDone r.job { s with queue := q } = false := by simp [ctrlP, hr]
+  unfold ctrl_cancel_iter1
+  simp only [M.bind, Bool.not_false, if_true, ctrlP_get_cons c W s j q hq, Option.isNone_some, Bool.false_eq_true,
+    if_false, M.pure, M.get, hd, Bool.not_false]
+  have hc : (ctrlP c W).taskCancel r.job { s with queue := q } = (cancelJob c r.job { s with queue := q }, .next ()) := rfl
+  have hw : ∀ x, (ctrlP c W).awaitTask r.job x = (W x, .next ()) := fun _ => rfl
+  simp only [hc, hw, hcj]
+  simpa [M.bind, M.pure] using htail
+
+/-- the sentinel: it never cancels -- with a task still active the iteration awaits it and leaves the loop;
+    nothing else happens -/
+theorem translated_outputasync_ctrl_cancel_sentinel (c : Cfg) (W : State → State) (s : State)
+    (task : Option Job) (data : Option Job) (fuel : Nat) (hq : s.queue = []) (hs : s.stopped = true) :
+    ctrl_cancel_iter1 (ctrlP c W) [()] fuel () data false task s
+      = ((match task with
+          | some k => if (ctrlP c W).taskDone k s then s else W s
+          | none => s),
+         .next (LoopCtl.brk, (none, true, task))) := by
+  unfold ctrl_cancel_iter1
+  simp only [M.bind, Bool.not_false, if_true, ctrlP_get_sentinel c W s hq hs, Option.isNone_none, M.pure]
+  cases task with
+  | none => rfl
+  | some k =>
+    have hw : ∀ x, (ctrlP c W).awaitTask k x = (W x, .next ()) := fun _ => rfl
+    cases hd : (ctrlP c W).taskDone k s <;> simp [M.bind, M.get, M.pure, hd, hw]
+
+/-- after the sentinel has been seen in the drain (`stop = True`): the next iteration takes nothing from the
+    queue, does not cancel the task it has just started, awaits it and leaves the loop -/
+theorem translated_outputasync_ctrl_cancel_after_stop (c : Cfg) (W : State → State) (s : State)
+    (k : Job) (data : Option Job) (fuel : Nat) (hd : (ctrlP c W).taskDone k s = false) :
+    ctrl_cancel_iter1 (ctrlP c W) [()] fuel () data true (some k) s
+      = (W s, .next (LoopCtl.brk, (data, true, some k))) := by
+  have hw : ∀ x, (ctrlP c W).awaitTask k x = (W x, .next ()) := fun _ => rfl
+  unfold ctrl_cancel_iter1
+  simp [M.bind, M.get, M.pure, hd, hw]
+
 end Edzed.TrTie
+
